@@ -32,8 +32,11 @@ theorem skel_update : Skel.Update = ["code.TimeRemaining", "r.Delete", "storage.
 /-- `CreatePortMapping`: record, then global list, with the record removed again if the list append fails;
 the service releases the generated ID on failure. -/
 theorem skel_create : Skel.RepoCreatePortMapping = ["r.Create", "r.AddMappingToList", "r.Delete"] ∧
-    Skel.SvcCreatePortMapping = ["idManager.GeneratePortMappingID", "mappingRepo.CreatePortMapping",
-      "HandleErrorWithIDReleaseString", "mappingRepo.AddMappingToClient", "mappingRepo.AddMappingToClient"] := by decide
+    Skel.SvcCreatePortMapping = ["idManager.GeneratePortMappingID", "HandleErrorWithIDReleaseString",
+      "mappingRepo.CreatePortMapping", "HandleErrorWithIDReleaseString", "mappingRepo.AddMappingToClient",
+      "mappingRepo.AddMappingToClient"] := by decide
+  -- the first `HandleErrorWithIDReleaseString` is the error path of the mapping-secret generation (C04 fix
+  -- "generate the mapping secret…"): it releases the id before anything is created, like the second one.
 
 theorem skel_model : Skel.Activate = ["c.CanBeActivatedBy"] ∧ Skel.Revoke = [] ∧
     Skel.GenerateUnique = ["g.Generate", "checkExists"] := by decide
